@@ -505,7 +505,7 @@ func (c *Ctx) votePowerAccumulates(v ssa.Value, votesField string) (bool, string
 		return false, "the running sum is not loop-carried"
 	}
 	sawZero, sawSelf := false, false
-	for _, e := range phi.Edges {
+	for _, e := range flatPhi(phi) {
 		if e == ssa.Value(add) {
 			sawSelf = true
 			continue
